@@ -121,9 +121,9 @@ Section BFGSProofs.
   Proof. intros. unfold lc. apply (sum_upd N d k f (fun l => bv l i)). assumption. Qed.
 
   Notation Lloop1 := (L_loop1 f0 fadd fmul fsub fdiv dim s y).
-  Notation Vloop1 := (V_loop1 f0 fadd fmul fsub fdiv dim m s y g gnorm).
+  Notation Vloop1 := (V_loop1 f0 fadd fmul fsub fdiv m BB).
   Notation Lloop2 := (L_loop2 f0 fadd fmul fsub fdiv dim m s y).
-  Notation Vloop2 := (V_loop2 f0 fadd fmul fsub fdiv dim m s y g gnorm).
+  Notation Vloop2 := (V_loop2 f0 fadd fmul fsub fdiv m BB).
 
   Lemma loop1_sim : forall c, (c <= m)%nat -> forall p d alL alV,
       (forall i, p i = lc N d i) -> (forall j, alL j = alV j) ->
@@ -182,7 +182,7 @@ Section BFGSProofs.
       vl_direction f0 f1 fadd fmul fsub fdiv fopp dim m s y g gnorm i =
       lbfgs_direction f0 fadd fmul fsub fdiv fopp dim m s y g i.
   Proof.
-    intros i. rewrite lbfgs_direction_pos. unfold vl_direction, vl_delta.
+    intros i. rewrite lbfgs_direction_pos. unfold vl_direction, vl_delta, vl_delta_of.
     set (d0 := fun l : nat => if Nat.eqb l (2 * m) then fopp f1 else f0).
     set (p0 := vneg fopp g).
     assert (H0 : forall i, p0 i = lc N d0 i).
@@ -225,7 +225,7 @@ Section BFGS0.
       vl_direction f0 f1 fadd fmul fsub fdiv fopp dim 0 s y g gnorm i =
       lbfgs_direction f0 fadd fmul fsub fdiv fopp dim 0 s y g i.
   Proof.
-    intros i. unfold vl_direction, vl_delta, lbfgs_direction. simpl.
+    intros i. unfold vl_direction, vl_delta, vl_delta_of, lbfgs_direction. simpl.
     unfold smul, vneg, bvec, B. simpl. rewrite div_self. ring.
   Qed.
 End BFGS0.
